@@ -81,6 +81,10 @@ def fixed_cases(tier):
     out.append({"fam": "D", "nfaces": 2, "axes": AXES, "fc": {"face": base, "tile": base}, "ds_face": True})
     out.append({"fam": "D", "nfaces": 2, "axes": AXES, "fc": {"face": base}, "ds_face": False})
     out.append({"fam": "D", "nfaces": 2, "axes": AXES, "fc": {"tile": base}, "ds_face": True})
+    # the key names something the dataset HAS, but not as a dimension: a non-dimension coordinate / a data variable
+    # holding the face labels ("the face dimension exists" is about dimensions)
+    out.append({"fam": "D", "nfaces": 2, "axes": AXES, "fc": {"face": base}, "ds_face": "coord_only"})
+    out.append({"fam": "D", "nfaces": 2, "axes": AXES, "fc": {"panel": base}, "ds_face": "with_panel_variable"})
     for c in out:
         c["fc"] = _strkeys(c["fc"])
     return out
@@ -138,7 +142,7 @@ def oracle(case):
     if len(fc) != 1:
         return False
     facedim = next(iter(fc))
-    if facedim != "face" or not case["ds_face"]:
+    if facedim != "face" or case["ds_face"] is not True:
         return False
     tbl = {int(f): v for f, v in fc[facedim].items()}
     faces = set(range(case["nfaces"]))
@@ -185,6 +189,10 @@ def eval_case(case, drv):
     if case["ds_face"]:
         coords["face"] = ("face", np.array(labels))
         ds = xr.Dataset(coords=coords)
+        if case["ds_face"] == "coord_only":
+            ds = ds.rename_dims({"face": "tile"})           # `face` survives as a coordinate along `tile`
+        elif case["ds_face"] == "with_panel_variable":
+            ds = ds.assign(panel=("face", np.array(labels)))
 
     def lab(i):
         return labels[i] if 0 <= i < nf else (max(labels) + 1 + i)        # a face that does not exist stays one
